@@ -514,10 +514,9 @@ fn place_case(idx: u64, obs: &mut Obs) {
         }
         if k < words.len() {
             gen::put(&mut line, words[k]);
+            // between a word and the primitive only `before` decides about blanks
             if k + 1 < words.len() && k + 1 != pos {
                 line.push(' ');
-            } else if k + 1 < words.len() && before.is_empty() && pos == k + 1 {
-                // no blank at all between the word and the primitive
             }
         }
     }
@@ -535,9 +534,9 @@ fn place_case(idx: u64, obs: &mut Obs) {
             format!("{pre}S0 \\input h E9\\vprobe\n")
         }
     };
-    // the property's quantifier excludes \input behind an executed \endinput on one line; the
-    // enumerated lines contain one primitive only, but the *file* g may end its own host line - no:
-    // g's \endinput concerns g only.  Nothing to exclude here.
+    // (the excluded quirk - \input behind an executed \endinput on one line - cannot arise: every
+    // enumerated line holds one primitive and g's own \endinput has taken effect before the host
+    // line goes on)
     let c = check_program(&files, &[], &main);
     add_flags(obs, &c.tex.flags);
     match c.tex.status {
@@ -942,8 +941,8 @@ impl Monitor for M {
                 .batch(128)
                 .exhaustive("operation sequences of length 1..5 over {read,ifeof,closein,openin} x 12 file shapes"),
             Phase::new("chain", tier.pick(1200, 6000)).batch(8),
-            Phase::new("tree", tier.pick(150_000, 5_000_000)).batch(64),
-            Phase::new("read", tier.pick(100_000, 3_000_000)).batch(64),
+            Phase::new("tree", tier.pick(100_000, 3_000_000)).batch(64),
+            Phase::new("read", tier.pick(60_000, 2_000_000)).batch(64),
         ]
     }
 
